@@ -37,6 +37,10 @@ def routing_configs(sizes=(5, 8)):
         ]
         for p in MTVRP_PRESETS:
             out.append(dict(env="mtvrp", n=n, preset=p))
+        ne = n + (n % 2)
+        for rm, pm, dm, dep in (("minmax", "close", "L2", 2), ("minsum", "open", "L1", 3), ("lateness", "close", "L2", 3), ("minsum", "close", "L2", 1),
+                                ("minmax", "open", "L2", 2), ("lateness", "open", "L1", 2)):
+            out.append(dict(env="mdcpdp", n=ne, reward_mode=rm, problem_mode=pm, dist_mode=dm, depots=dep))
     return out
 
 
@@ -75,6 +79,9 @@ def make(cfg):
     if name == "mtsp":
         a = cfg.get("agents", (2, 3))
         return E.MTSPEnv(generator_params=dict(num_loc=n, min_num_agents=a[0], max_num_agents=a[1]), cost_type=cfg.get("cost_type", "minmax"), **kw), R.MTSP
+    if name == "mdcpdp":
+        gp = dict(num_loc=n, num_depot=cfg.get("depots", 2), min_capacity=1, max_capacity=cfg.get("max_cap", 3), depot_mode=cfg.get("depot_mode", "multiple"))
+        return E.MDCPDPEnv(generator_params=gp, reward_mode=cfg["reward_mode"], problem_mode=cfg["problem_mode"], dist_mode=cfg["dist_mode"], **kw), R.MDCPDP
     if name == "mtvrp":
         return E.MTVRPEnv(generator_params=dict(num_loc=n, variant_preset=cfg.get("preset", "all")), **kw), R.MTVRP
     raise KeyError(name)
